@@ -1,5 +1,5 @@
 """O/P/R — ownership, lifetime and accessor rules for the containers and holders (C13, C16, C17)."""
-from .ir import path, canon, std_unwrap, AnalysisBroken
+from .ir import path, canon, std_unwrap, AnalysisBroken, climb
 from . import flow
 from . import rules_atomic as RA
 from .rules_guard import write_of
@@ -551,9 +551,7 @@ def check_local_allocs(ctx, unit, fns, rule="O1.alloc-escapes"):
             # how is the result bound?
             n = call
             p = f.parent(n)
-            while p is not None and p.kind in ("ImplicitCastExpr", "ParenExpr", "CStyleCastExpr", "CXXStaticCastExpr",
-                                               "CXXReinterpretCastExpr", "ExprWithCleanups", "CXXFunctionalCastExpr"):
-                n, p = p, f.parent(p)
+            n, p = climb(f, n)
             did = None
             bind = None
             if p is None or p.kind == "DeclStmt":
@@ -693,9 +691,7 @@ def check_size_agreement(ctx, unit, classes, rule="O3.size-agreement"):
                 for n in f.events():
                     if n.kind == "CXXMemberCallExpr" and n.callee and n.callee["n"] == "allocate" and n.callee.get("cls") == "wit::Alloc":
                         # which field receives it?
-                        p, c = f.parent(n), n
-                        while p is not None and p.kind in ("ImplicitCastExpr", "ParenExpr", "CStyleCastExpr", "CXXReinterpretCastExpr", "CXXStaticCastExpr"):
-                            c, p = p, f.parent(p)
+                        c, p = climb(f, n)
                         fld = None
                         if p is not None and p.kind == "BinaryOperator" and p.op == "=":
                             lp = path(p.children[0])
@@ -1400,8 +1396,25 @@ def check_typelevel(ctx, rule, prefix, minimum, unit="typelevel"):
     u = load_unit(unit, extra_flags=("-fconstexpr-steps=200000000",))
     ctx.use_unit(u)
     from .ir import ROOT
+    # declarations of the unit that are witnesses by compiling at all (`constinit T x; // WITNESS <prefix> <text>`): one instance
+    # each; an error reported on such a line is the verdict for that instance
+    import os, re
+    src_path = os.path.join(os.path.dirname(os.path.dirname(os.path.abspath(__file__))), "tu", unit + ".cpp")
+    decl_wit = {}
+    if os.path.exists(src_path):
+        for ln, text in enumerate(open(src_path, errors="replace").read().split("\n"), 1):
+            m = re.search(r"//\s*WITNESS\s+(\S+)\s+(.*)$", text)
+            if m:
+                decl_wit[ln] = (m.group(1), m.group(2).strip())
+
+    def on_witness_line(e):
+        return os.path.basename(e["file"]) == os.path.basename(src_path) and e["line"] in decl_wit
+    wit_errs = {}
+    for e in u.diagnostics:
+        if e["level"] == "error" and on_witness_line(e):
+            wit_errs.setdefault(e["line"], e["text"])
     other = [e for e in u.diagnostics if e["level"] == "error" and "static_assert" not in e["text"]
-             and "static assertion" not in e["text"]]
+             and "static assertion" not in e["text"] and not on_witness_line(e)]
     own = [e for e in u.diagnostics if e["level"] == "error" and e["file"].startswith(ROOT)
            and ("static_assert" in e["text"] or "static assertion" in e["text"])]
     seen = set()
@@ -1427,6 +1440,13 @@ def check_typelevel(ctx, rule, prefix, minimum, unit="typelevel"):
         raise AnalysisBroken("type-level witness unit does not compile: %s" % "; ".join(
             "%s:%s: %s" % (e["file"], e["line"], e["text"]) for e in other[:3]))
     n = 0
+    for ln, (pfx, msg) in sorted(decl_wit.items()):
+        if pfx != prefix:
+            continue
+        n += 1
+        ok = ln not in wit_errs
+        ctx.inst(rule, "%s %s" % (pfx, msg[:110]), ok, "%s:%d" % (src_path, ln),
+                 "the witness declaration compiles" if ok else "the witness declaration is rejected: %s" % wit_errs[ln][:200])
     for sa in u.d.get("static_asserts", []):
         msg = sa.get("msg", "")
         if not msg.startswith(prefix):
@@ -1735,8 +1755,22 @@ def check_grow_then_read_arg(ctx, unit, classes, rule="O.arg-survives-growth"):
         for rec in recs_of(unit, cls):
             fns = cls_fns(unit, rec["qn"])
             # members that may end the lifetime of elements: they free a block or destroy elements explicitly
+            sc_ = StorageClass(rec, fns)
+
+            def moved_out(g):
+                """std::move applied to an element of the container's own storage: the element keeps living, but an argument
+                that aliases it reads a moved-from value afterwards"""
+                old = sc_.on(g)
+                out = []
+                for n in g.events():
+                    if n.kind == "CallExpr" and n.callee and n.callee["uq"] == "std::move" and n.args:
+                        a = n.args[0].strip()
+                        if a.kind in ("ArraySubscriptExpr", "UnaryOperator") and old(a) is True:
+                            out.append(n)
+                return out
+
             def kills(g):
-                return [n for n in g.events() if is_dtor_call(n) is not None] + list(free_calls(g))
+                return [n for n in g.events() if is_dtor_call(n) is not None] + list(free_calls(g)) + moved_out(g)
             may = {f.did for f in fns if kills(f) and f.kind != "dtor"}
             grew = True
             while grew:
@@ -1785,7 +1819,7 @@ def check_grow_then_read_arg(ctx, unit, classes, rule="O.arg-survives-growth"):
                                     continue
                                 bad.append((n, r))
                 ctx.inst(rule, f.sig, not bad, f.loc,
-                         ("argument `%s` is read at %s after %s at %s may have destroyed the elements and released the old buffer" % (
+                         ("argument `%s` is read at %s after %s at %s may have destroyed or moved from the elements (or released the old buffer)" % (
                              refp[bad[0][0].d["d"]]["n"], bad[0][0].loc, (bad[0][1].callee["n"] + "()") if bad[0][1].callee else "the explicit destructor call",
                              bad[0][1].loc)) if bad else
                          "arguments are consumed before any relocation", f)
@@ -1820,3 +1854,95 @@ def check_raw_storage_moves(ctx, unit, classes, rule="O.storage-not-byte-swapped
                         bad.append("assignment to %s at %s in %s" % (".".join(w[0]).split("#")[0], n.loc, f.name))
             ctx.inst(rule, cls, not bad, rec["loc"], ("; ".join(sorted(set(bad))[:2]) + ": live elements are exchanged as raw bytes") if bad else
                      "storage member %s is only accessed element-wise" % stor, None)
+
+
+# ---- I.capacity-storage-paired: the heap pointer and the capacity of a small_vector change together -----------------------
+
+def check_capacity_storage_paired(ctx, unit, cls="frg::small_vector", rule="I.capacity-storage-paired"):
+    """small_vector relies on `capacity <= N  =>  heap pointer == nullptr` (its growth path frees the heap pointer without
+    asking which storage is in use).  The invariant is kept because the two fields only ever change together: both are
+    initialised, both are swapped, both are replaced by growth.  A member that writes one of them for an object without the
+    other on some path -- or writes the inline extent N to the capacity next to a non-null pointer -- breaks the pairing.
+    The fields are found structurally (the pointer field; the integer field the default constructor initialises with N)."""
+    ctx.rule(rule, "the heap pointer and the capacity of one small_vector object are written on the same paths (initialised, swapped "
+             "or replaced together), and the inline extent N is written to the capacity only next to a null heap pointer", 3)
+    for rec in recs_of(unit, cls):
+        fns = cls_fns(unit, rec["qn"]) + [f for f in unit.functions if f.name == "swap" and f.owner_cls is None and
+                                           any((p.get("rt") or "") == cls and rec["qn"] in (p.get("t") or "") for p in f.params())]
+        heap = [fl["n"] for fl in rec["fields"] if fl.get("ptr")]
+        capf, N = None, None
+        for f in fns:
+            if f.kind != "ctor":
+                continue
+            for n in f.events():
+                if n.kind == "CtorInit" and n.get("field") and n.get("init") is not None:
+                    iv = f.node(n.get("init"))
+                    x = iv
+                    while x is not None and x.kind in ("ImplicitCastExpr", "ParenExpr") and x.children:
+                        x = x.children[0]
+                    if x is not None and x.kind == "SubstNonTypeTemplateParmExpr" and iv.strip().cv() is not None:
+                        capf, N = n.get("field"), iv.strip().cv()
+        if len(heap) != 1 or capf is None:
+            raise AnalysisBroken("anchor vanished: %s: heap pointer field / capacity field" % rec["qn"])
+        heap = heap[0]
+        seen = set()
+        n_inst = 0
+        for f in fns:
+            if f.did in seen or f.get("lambda"):
+                continue
+            seen.add(f.did)
+
+            def labels(n, f=f):
+                out = []
+                if n.kind == "CtorInit" and n.get("field") in (heap, capf) and n.get("init") is not None:
+                    v = f.node(n.get("init")).strip()
+                    q = ":null" if (n.get("field") == heap and (v.kind in ("CXXNullPtrLiteralExpr", "GNUNullExpr") or v.cv() == 0)) else \
+                        (":N" if (n.get("field") == capf and v.cv() == N and _is_tparam(v)) else "")
+                    out.append(("this", n.get("field"), q))
+                    return out
+                w = write_of(n)
+                if w and w[0] and len(w[0]) == 2 and w[0][-1] in (heap, capf) and n.kind in ("BinaryOperator", "CompoundAssignOperator"):
+                    v = w[1].strip() if w[1] is not None else None
+                    q = ""
+                    if v is not None and w[0][-1] == heap and (v.kind in ("CXXNullPtrLiteralExpr", "GNUNullExpr") or v.cv() == 0):
+                        q = ":null"
+                    if v is not None and w[0][-1] == capf and v.cv() == N and _is_tparam(v):
+                        q = ":N"
+                    out.append((w[0][0].split("#")[0], w[0][-1], q))
+                if n.kind == "CallExpr" and n.callee and n.callee["n"] in ("swap", "exchange") and n.args:
+                    for a in n.args[:2]:
+                        p_ = path(a)
+                        if p_ and len(p_) == 2 and p_[-1] in (heap, capf):
+                            out.append((p_[0].split("#")[0], p_[-1], ""))
+                return out
+
+            def transfer(n, st):
+                ls = labels(n)
+                return [st | frozenset(ls)] if ls else [st]
+            if not any(labels(n) for n in f.events()):
+                continue
+            _, ex = flow.run(f, [frozenset()], transfer, None, limit=20000)
+            bad = []
+            for st in ex:
+                objs = {o for (o, _, _) in st}
+                for o in objs:
+                    hw = [q for (o2, fl, q) in st if o2 == o and fl == heap]
+                    cw = [q for (o2, fl, q) in st if o2 == o and fl == capf]
+                    if bool(hw) != bool(cw):
+                        bad.append("on a path %s.%s is written and %s.%s is not" % (o, heap if hw else capf, o, capf if hw else heap))
+                    elif ":N" in cw and ":null" not in hw:
+                        bad.append("on a path %s.%s becomes the inline extent while %s.%s is not set to null" % (o, capf, o, heap))
+            n_inst += 1
+            ctx.inst(rule, f.sig, not bad, f.loc,
+                     ("; ".join(sorted(set(bad))[:2]) + ": growth frees the heap pointer whenever the capacity is exceeded, inline or not") if bad else
+                     "pointer and capacity change together on every path", f)
+        if n_inst < 3:
+            raise AnalysisBroken("anchor vanished: members of %s that write the heap pointer / capacity (found %d)" % (rec["qn"], n_inst))
+
+
+def _is_tparam(v):
+    x = v
+    hops = 0
+    while x is not None and x.kind in ("ImplicitCastExpr", "ParenExpr") and x.children and hops < 6:
+        x, hops = x.children[0], hops + 1
+    return x is not None and x.kind == "SubstNonTypeTemplateParmExpr"
